@@ -698,9 +698,15 @@ def oracle(case, obs):
 
 
 def _src_wave_alias(i, hist, who, views, prev_views):
-    """live != stored on an entity that was not edited: does it come from a waveform edit of a copy of it?"""
-    op = hist[i]
-    return op["op"] == "wave" and op["a"] != who and any(h["op"] == "copy" for h in hist[:i])
+    """live != stored on an entity, differing in the Waveform entry only, after a waveform edit that followed a copy:
+    the shared nested dict was updated through another pair."""
+    v = views[who]
+    lk = {k: x for k, x in (v["live"] or [])}
+    sk = {k: x for k, x in (v["stored"] or [])}
+    diff = {k for k in set(lk) | set(sk) if lk.get(k) != sk.get(k)}
+    copies = [j for j, h in enumerate(hist[: i + 1]) if h["op"] == "copy"]
+    waves = [j for j, h in enumerate(hist[: i + 1]) if h["op"] == "wave"]
+    return diff == {2} and bool(copies) and any(j > copies[0] for j in waves)
 
 
 def nontrivial(case, obs):
